@@ -58,6 +58,12 @@ impl WakerGuard {
         requires known(old(env), self.id), forall|w: Waker| c.requires((&w,)), forall|w: Waker, b: bool| c.ensures((&w,), b) && b ==> p(w.task),
         ensures *final(env) == *old(env), r ==> exists|i: int| 0 <= i < old(env).registered@[self.id].len() && p(#[trigger] old(env).registered@[self.id][i]),
     { unimplemented!() }
+    // `guard.iter().all(|w| c(w))` with c's ghost twin p (true on an empty list; nothing is promised when it is false)
+    #[verifier::external_body]
+    pub fn vx_iter_all<F: Fn(&Waker) -> bool>(&self, c: F, Ghost(p): Ghost<spec_fn(int) -> bool>, env: &mut FEnv) -> (r: bool)
+        requires known(old(env), self.id), forall|w: Waker| c.requires((&w,)), forall|w: Waker, b: bool| c.ensures((&w,), b) && b ==> p(w.task),
+        ensures *final(env) == *old(env), r ==> forall|i: int| 0 <= i < old(env).registered@[self.id].len() ==> p(#[trigger] old(env).registered@[self.id][i]),
+    { unimplemented!() }
     #[verifier::external_body]
     pub fn push_raw(&mut self, w: Waker, env: &mut FEnv)
         requires known(old(env), old(self).id)
